@@ -616,10 +616,15 @@ def render_item(relpath, kind, name, opts, pre_lines, log):
     return out, meta
 
 
-def generate(unit_path):
-    """Returns (generated_text, regions, log, unit_meta)."""
+def generate(unit_path, extra_tail=None):
+    """Returns (generated_text, regions, log, unit_meta).  `extra_tail` (directive text) is spliced in before the
+    final `} // verus!` line: used by the runner to auto-extract callees a changed function newly depends on."""
     with open(unit_path, encoding='utf-8') as f:
-        lines = f.read().split('\n')
+        text0 = f.read()
+    if extra_tail:
+        k = text0.rindex('} // verus!')
+        text0 = text0[:k] + extra_tail + '\n' + text0[k:]
+    lines = text0.split('\n')
     out = []
     regions = []
     log = []
